@@ -333,6 +333,9 @@ theorem bytes_exact (cfg : Config) (codec : Codec) (fs : FS) (key : Key) (span :
           | (cases hc : codec.witDir (layout cfg.root key) <;> (simp_all; done))
           | (rename_i src; cases hc : codec.wat src <;> (simp_all; done))
 
+example : resolveKey (exCfg true true false []) exCodec
+    (FS.ofList [(p ["deps", "ns", "pkg.wat"], .file "T".toList)]) kPlain "sp".toList = .loaded "PARSED:T".toList := by decide
+
 /-! ### only the documented places are consulted -/
 
 /-- The result for a key depends on the file system only at the applicable override path and at
@@ -376,5 +379,10 @@ theorem only_documented_paths_consulted (cfg : Config) (codec : Codec) (fs fs' :
       have hfile : isFile fs r = isFile fs' r := by unfold isFile; rw [hr]
       simp only [if_true, hfile]
       cases hf : isFile fs' r <;> simp [hload r hr]
+
+example : resolveKey (exCfg true true true []) exCodec (FS.ofList [(p ["deps", "ns", "pkg.wasm"], .file "B".toList)]) kPlain "sp".toList =
+    resolveKey (exCfg true true true []) exCodec
+      (FS.ofList [(p ["deps", "ns", "pkg.wasm"], .file "B".toList), (p ["deps", "ns.wasm"], .file "X".toList),
+                  (p ["deps", "ns", "pk.wasm"], .dir)]) kPlain "sp".toList := by decide
 
 end Wac.Props.C18
